@@ -2,6 +2,7 @@ package main
 
 import (
 	"fmt"
+	"regexp"
 	"strings"
 
 	"golang.org/x/tools/go/ssa"
@@ -32,61 +33,83 @@ func checkC19(w *World, r *Report) {
 		compileFn = ci.Common().StaticCallee()
 	}
 	isWriter := func(n string, c *ssa.CallCommon) bool { return c.IsInvoke() && c.Method.Name() == "Writer" }
-	writers := findCalls(run, isWriter)
-	// the writers may be opened in a helper that Run calls with the job id and the task name:
-	// their arguments are then read with the helper's parameters bound to the call's arguments
-	var openHelper *ssa.Function
-	var openCall *ssa.Call
-	if len(writers) == 0 {
-		allInstrs(run, func(in ssa.Instruction) {
-			if c, ok := in.(*ssa.Call); ok {
-				if g := c.Call.StaticCallee(); g != nil && g.Blocks != nil && w.InModule(g) && len(findCalls(g, isWriter)) > 0 {
-					openHelper, openCall = g, c
-				}
-			}
-		})
-		if openHelper != nil {
-			writers = findCalls(openHelper, isWriter)
-			penv := map[*ssa.Parameter]ssa.Value{}
-			for i, p := range openHelper.Params {
-				if i < len(openCall.Call.Args) {
-					penv[p] = w.Resolve(openCall.Call.Args[i])
-				}
-			}
-			saved := w.paramEnv
-			w.paramEnv = penv
-			defer func() { w.paramEnv = saved }()
+	// an opened writer: the value the flow starts from, its stream label and key arguments (rendered
+	// in Run's terms), the instruction that stands for "opened here" in Run
+	type opened struct {
+		src            ssa.Value
+		at             ssa.Instruction // in Run
+		call           *ssa.Call       // the Writer call itself
+		stream         string
+		jobArg, taskAr string
+	}
+	var opens []opened
+	for _, wc := range findCalls(run, isWriter) {
+		if call, ok := wc.(*ssa.Call); ok {
+			opens = append(opens, opened{call, call, call, strings.Trim(w.AP(call.Call.Args[2]), "\""), w.AP(call.Call.Args[0]), w.AP(call.Call.Args[1])})
 		}
 	}
-	if compile == nil || compileFn == nil || len(writers) == 0 {
-		r.Viol("labels.run", FuncName(run)+": writers and CompileTask", w.Pos(run.Pos()), fmt.Sprintf("Run has %d output-store writers and CompileTask call=%v: task output is not captured", len(writers), compile != nil))
-	} else {
-		oi, ei := paramIndex(compileFn, "stdout"), paramIndex(compileFn, "stderr")
-		cname := calleeName(compile.Common())
-		seenStreams := map[string]bool{}
-		for _, wc := range writers {
+	// the writers may be opened in a helper or a local closure that Run calls: their arguments are
+	// read with the helper's parameters bound to the call's arguments; when the stream label is such a
+	// parameter, each call of the helper is one opened writer and the flow starts at the call's result
+	allInstrs(run, func(in ssa.Instruction) {
+		c, ok := in.(*ssa.Call)
+		if !ok {
+			return
+		}
+		g := c.Call.StaticCallee()
+		if g == nil || g.Blocks == nil || !w.InModule(g) {
+			return
+		}
+		inner := findCalls(g, isWriter)
+		if len(inner) == 0 {
+			return
+		}
+		penv := map[*ssa.Parameter]ssa.Value{}
+		for i, p := range g.Params {
+			if i < len(c.Call.Args) {
+				penv[p] = w.Resolve(c.Call.Args[i])
+			}
+		}
+		saved := w.paramEnv
+		w.paramEnv = penv
+		for _, wc := range inner {
 			call, ok := wc.(*ssa.Call)
 			if !ok {
 				continue
 			}
-			stream := strings.Trim(w.AP(call.Call.Args[2]), "\"")
+			o := opened{src: call, at: c, call: call, stream: strings.Trim(w.AP(call.Call.Args[2]), "\""), jobArg: w.AP(call.Call.Args[0]), taskAr: w.AP(call.Call.Args[1])}
+			if _, isConst := call.Call.Args[2].(*ssa.Const); !isConst {
+				// labelled by the helper's parameter: this call of the helper opens that stream
+				o.src = c
+			}
+			opens = append(opens, o)
+		}
+		w.paramEnv = saved
+	})
+	if compile == nil || compileFn == nil || len(opens) == 0 {
+		r.Viol("labels.run", FuncName(run)+": writers and CompileTask", w.Pos(run.Pos()), fmt.Sprintf("Run has %d output-store writers and CompileTask call=%v: task output is not captured", len(opens), compile != nil))
+	} else {
+		oi, ei := paramIndex(compileFn, "stdout"), paramIndex(compileFn, "stderr")
+		cname := calleeName(compile.Common())
+		seenStreams := map[string]bool{}
+		for _, o := range opens {
+			stream := o.stream
 			seenStreams[stream] = true
-			sinks := sinkSet(w.flowSinks(call))
+			sinks := sinkSet(w.flowSinks(o.src))
 			want, other := fmt.Sprintf("%s#%d", cname, oi), fmt.Sprintf("%s#%d", cname, ei)
 			if stream == "stderr" {
 				want, other = other, want
 			}
 			okL := sinks[want] && !sinks[other] && (stream == "stdout" || stream == "stderr")
-			r.Check(okL, "labels.run", FuncName(run)+": writer \""+stream+"\" → CompileTask", w.InstrPos(call), "reaches the "+stream+" position of CompileTask and not the other stream's", fmt.Sprintf("the writer opened for %q reaches {%s}: expected the %s position of CompileTask only — the two streams are swapped or mixed", stream, sinkList(sinks), stream))
+			r.Check(okL, "labels.run", FuncName(run)+": writer \""+stream+"\" → CompileTask", w.InstrPos(o.at), "reaches the "+stream+" position of CompileTask and not the other stream's", fmt.Sprintf("the writer opened for %q reaches {%s}: expected the %s position of CompileTask only — the two streams are swapped or mixed", stream, sinkList(sinks), stream))
 			// key arguments and once per run
-			jobArg, taskArg := w.AP(call.Call.Args[0]), w.AP(call.Call.Args[1])
-			okK := strings.Contains(jobArg, "arg0.Variables.Get(\"__jobID\")") && taskArg == "arg0.Name"
-			r.Check(okK, "key.writer-args", FuncName(run)+": writer \""+stream+"\" key", w.InstrPos(call), "opened for (the task's own job-id variable, the task's name, \""+stream+"\")", "the log writer is opened for ("+jobArg+", "+taskArg+"): output is attributed to another job or task")
-			inLoop := PathQuery{Fn: call.Parent(), Start: []ssa.Instruction{call}, Target: func(x ssa.Instruction) bool { return x == ssa.Instruction(call) }}.Find().Found
-			if openCall != nil {
-				inLoop = inLoop || PathQuery{Fn: run, Start: []ssa.Instruction{openCall}, Target: func(x ssa.Instruction) bool { return x == ssa.Instruction(openCall) }}.Find().Found
+			okK := strings.Contains(o.jobArg, "arg0.Variables.Get(\"__jobID\")") && o.taskAr == "arg0.Name"
+			r.Check(okK, "key.writer-args", FuncName(run)+": writer \""+stream+"\" key", w.InstrPos(o.at), "opened for (the task's own job-id variable, the task's name, \""+stream+"\")", "the log writer is opened for ("+o.jobArg+", "+o.taskAr+"): output is attributed to another job or task")
+			inLoop := PathQuery{Fn: o.call.Parent(), Start: []ssa.Instruction{o.call}, Target: func(x ssa.Instruction) bool { return x == ssa.Instruction(o.call) }}.Find().Found
+			if o.at != ssa.Instruction(o.call) {
+				inLoop = inLoop || PathQuery{Fn: run, Start: []ssa.Instruction{o.at}, Target: func(x ssa.Instruction) bool { return x == o.at }}.Find().Found
 			}
-			r.Check(!inLoop, "key.writer-once", FuncName(run)+": writer \""+stream+"\" opened once per run", w.InstrPos(call), "not in a loop: one file per task run and stream, shared by all commands of the task", "the log file is (re)created in a loop: output of earlier commands of the task is truncated")
+			r.Check(!inLoop, "key.writer-once", FuncName(run)+": writer \""+stream+"\" opened once per run", w.InstrPos(o.at), "not in a loop: one file per task run and stream, shared by all commands of the task", "the log file is (re)created in a loop: output of earlier commands of the task is truncated")
 		}
 		r.Check(seenStreams["stdout"] && seenStreams["stderr"], "labels.both-streams", FuncName(run)+": both streams captured", w.Pos(run.Pos()), "writers for \"stdout\" and \"stderr\"", "not both streams are captured")
 	}
@@ -188,11 +211,75 @@ func checkC19(w *World, r *Report) {
 		}
 	}
 	// ---- f. log handler: readers → response fields; membership
+	isReader := func(n string, c *ssa.CallCommon) bool { return c.IsInvoke() && c.Method.Name() == "Reader" }
+	// the log handler: the HTTP handler of package server that opens log readers, itself or through a
+	// helper it calls with the stream label
+	isHTTPHandler := func(f *ssa.Function) bool {
+		ps := f.Signature.Params()
+		return ps.Len() == 2 && strings.HasSuffix(ps.At(0).Type().String(), "http.ResponseWriter") && strings.HasSuffix(ps.At(1).Type().String(), "http.Request")
+	}
+	readsLogs := func(f *ssa.Function) bool {
+		if len(findCalls(f, isReader)) > 0 {
+			return true
+		}
+		found := false
+		allInstrs(f, func(in ssa.Instruction) {
+			if c := callCommonOf(in); c != nil {
+				if g := c.StaticCallee(); g != nil && g.Blocks != nil && w.InModule(g) && g != f && len(findCalls(g, isReader)) > 0 {
+					found = true
+				}
+			}
+		})
+		return found
+	}
 	if h := w.FuncByRole("server", "(*server).jobLogs", func(f *ssa.Function) bool {
-		return len(findCalls(f, func(n string, c *ssa.CallCommon) bool { return c.IsInvoke() && c.Method.Name() == "Reader" })) > 0
+		return isHTTPHandler(f) && readsLogs(f)
 	}); h != nil {
 		hname := FuncName(h)
-		readers := findCalls(h, func(n string, c *ssa.CallCommon) bool { return c.IsInvoke() && c.Method.Name() == "Reader" })
+		type openedReader struct {
+			src             ssa.Value
+			at              ssa.Instruction
+			stream          string
+			jobArg, taskArg string
+		}
+		var readers []openedReader
+		for _, rc := range findCalls(h, isReader) {
+			if call, ok := rc.(*ssa.Call); ok {
+				readers = append(readers, openedReader{call, call, strings.Trim(w.AP(call.Call.Args[2]), "\""), w.AP(call.Call.Args[0]), w.AP(call.Call.Args[1])})
+			}
+		}
+		allInstrs(h, func(in ssa.Instruction) {
+			c, ok := in.(*ssa.Call)
+			if !ok {
+				return
+			}
+			g := c.Call.StaticCallee()
+			if g == nil || g.Blocks == nil || !w.InModule(g) || g == h {
+				return
+			}
+			inner := findCalls(g, isReader)
+			if len(inner) == 0 {
+				return
+			}
+			penv := map[*ssa.Parameter]ssa.Value{}
+			for i, p := range g.Params {
+				if i < len(c.Call.Args) {
+					penv[p] = w.Resolve(c.Call.Args[i])
+				}
+			}
+			saved := w.paramEnv
+			w.paramEnv = penv
+			for _, rc := range inner {
+				if call, ok := rc.(*ssa.Call); ok {
+					o := openedReader{src: call, at: c, stream: strings.Trim(w.AP(call.Call.Args[2]), "\""), jobArg: w.AP(call.Call.Args[0]), taskArg: w.AP(call.Call.Args[1])}
+					if _, isConst := call.Call.Args[2].(*ssa.Const); !isConst {
+						o.src = c // labelled by the helper's parameter: the helper's result carries that stream's bytes
+					}
+					readers = append(readers, o)
+				}
+			}
+			w.paramEnv = saved
+		})
 		var existsIf *ifFact
 		facts := w.ifFacts(h)
 		for i, f := range facts {
@@ -201,13 +288,12 @@ func checkC19(w *World, r *Report) {
 				existsIf = &facts[i]
 			}
 		}
-		for _, rc := range readers {
-			call, ok := rc.(*ssa.Call)
-			if !ok {
-				continue
+		for _, rd := range readers {
+			stream := rd.stream
+			if stream == "" {
+				stream = "?"
 			}
-			stream := strings.Trim(w.AP(call.Call.Args[2]), "\"")
-			sinks := sinkSet(w.flowSinks(call))
+			sinks := sinkSet(w.flowSinks(rd.src))
 			var fields []string
 			for k := range sinks {
 				if strings.HasPrefix(k, "field:") {
@@ -216,17 +302,17 @@ func checkC19(w *World, r *Report) {
 			}
 			wantSuffix := "." + strings.ToUpper(stream[:1]) + stream[1:]
 			okF := len(fields) == 1 && strings.HasSuffix(fields[0], wantSuffix)
-			r.Check(okF, "labels.api", hname+": reader \""+stream+"\" → response field", w.InstrPos(call), "its bytes are returned in the "+stream+" field only", "the bytes read from the \""+stream+"\" log are returned in "+strings.Join(fields, ", ")+": streams are swapped or mixed in the API")
+			r.Check(okF, "labels.api", hname+": reader \""+stream+"\" → response field", w.InstrPos(rd.at), "its bytes are returned in the "+stream+" field only", "the bytes read from the \""+stream+"\" log are returned in "+strings.Join(fields, ", ")+": streams are swapped or mixed in the API")
 			// membership: dominated by the task-exists edge
 			okM := false
 			if existsIf != nil {
-				res := PathQuery{Fn: h, Target: func(x ssa.Instruction) bool { return x == ssa.Instruction(call) }, BlockEdge: func(b *ssa.BasicBlock, s int) bool { return b == existsIf.If.Block() && s == existsIf.SuccTrue }}.Find()
+				res := PathQuery{Fn: h, Target: func(x ssa.Instruction) bool { return x == rd.at }, BlockEdge: func(b *ssa.BasicBlock, s int) bool { return b == existsIf.If.Block() && s == existsIf.SuccTrue }}.Find()
 				okM = !res.Found
 			}
-			r.Check(okM, "membership.dominates", hname+": reader \""+stream+"\" behind the task-exists test", w.InstrPos(call), "reachable only over the task-exists edge", "the log reader is reachable without the task-membership test: logs of a task the job does not have (or of another job's path) can be requested")
+			r.Check(okM, "membership.dominates", hname+": reader \""+stream+"\" behind the task-exists test", w.InstrPos(rd.at), "reachable only over the task-exists edge", "the log reader is reachable without the task-membership test: logs of a task the job does not have (or of another job's path) can be requested")
 			// key: job id and task name of the request
-			jobArg, taskArg := w.AP(call.Call.Args[0]), w.AP(call.Call.Args[1])
-			r.Check(strings.Contains(jobArg, "uuid.FromString(local:params.Id)#0") && taskArg == "local:params.Task", "key.reader-args", hname+": reader \""+stream+"\" key", w.InstrPos(call), "read for (the requested job id, the requested task name)", "the log reader is opened for ("+jobArg+", "+taskArg+")")
+			jobArg, taskArg := rd.jobArg, rd.taskArg
+			r.Check(strings.Contains(jobArg, "uuid.FromString(local:params.Id)#0") && taskArg == "local:params.Task", "key.reader-args", hname+": reader \""+stream+"\" key", w.InstrPos(rd.at), "read for (the requested job id, the requested task name)", "the log reader is opened for ("+jobArg+", "+taskArg+")")
 		}
 		// the flag is set only when the job has the task (under ReadJob)
 		okSet := false
@@ -277,7 +363,7 @@ func checkC19(w *World, r *Report) {
 			okP := len(opens) == 1
 			if okP {
 				desc = w.APThrough(opens[0].Common().Args[0])
-				okP = strings.HasPrefix(desc, "path.Join([recv.path,arg0,") && strings.Contains(desc, "[arg1,arg2]") && strings.Contains(desc, "%s-%s")
+				okP = pathUsesAllKeys(desc)
 			}
 			exprs[m] = desc
 			r.Check(okP, "key.path-function", FuncName(f)+": opens <base>/<job>/<task>-<stream>.log", w.Pos(f.Pos()), "the one file opened is "+desc, FuncName(f)+" opens "+desc+" ("+fmt.Sprint(len(opens))+" open calls), which does not use all of (base, job id, task name, stream): output of different jobs, tasks or streams shares a file")
@@ -292,4 +378,23 @@ func checkC19(w *World, r *Report) {
 	r.Floor("labels.stdio", 3)
 	r.Floor("key.", 8)
 	r.Floor("membership.", 3)
+}
+
+var concatKeyRe = regexp.MustCompile(`^\(*arg1 \+ "[^"%]+"\) \+ arg2\)( \+ "[^"%]*"\))?\]\)$`)
+
+// pathUsesAllKeys: the rendered path expression is Join(base, job id, <task name><non-empty constant><stream>…)
+// — built with Sprintf("%s<c>%s…", task, stream) or by concatenation; each key occurs once.
+func pathUsesAllKeys(desc string) bool {
+	const pre = "path.Join([recv.path,arg0,"
+	if !strings.HasPrefix(desc, pre) {
+		return false
+	}
+	rest := desc[len(pre):]
+	if strings.Count(rest, "arg1") != 1 || strings.Count(rest, "arg2") != 1 || strings.Contains(rest, "arg0") {
+		return false
+	}
+	if strings.HasPrefix(rest, "fmt.Sprintf(") {
+		return strings.Contains(rest, "[arg1,arg2]") && regexp.MustCompile(`"%s[^%"]+%s[^%"]*"`).MatchString(rest)
+	}
+	return concatKeyRe.MatchString(rest)
 }
